@@ -10,11 +10,12 @@ import (
 )
 
 type c18Gen struct {
-	r    *rand.Rand
-	prep bool // placeholders allowed (the text must be parsed with forPrepared)
-	ansi bool // "x" is an identifier (the text must be parsed with ansiQuotes)
-	safe bool // evaluation-safe expressions only: no tables, sub-queries, cursors, aggregates
-	used struct{ prep, dq bool }
+	r       *rand.Rand
+	prep    bool // placeholders allowed (the text must be parsed with forPrepared)
+	ansi    bool // "x" is an identifier (the text must be parsed with ansiQuotes)
+	safe    bool // evaluation-safe expressions only: no tables, sub-queries, cursors, aggregates
+	nofield bool // field references are replaced by variables (inside a substantial_value)
+	used    struct{ prep, dq bool }
 }
 
 func (g *c18Gen) pick(xs ...string) string { return xs[g.r.Intn(len(xs))] }
@@ -99,7 +100,30 @@ func (g *c18Gen) prim() string {
 
 func (g *c18Gen) variable() string { return "@" + g.pick("a", "b", "c", "d", "var1", "_v", "あ") }
 
+// sub: a substantial_value (the grammar excludes a bare or parenthesised field reference there)
+func (g *c18Gen) sub(d int) string {
+	old := g.nofield
+	g.nofield = true
+	v := g.value(d)
+	g.nofield = old
+	return v
+}
+
+// plainIdent: a name that is not one of the keywords the grammar also accepts as identifiers
+func (g *c18Gen) plainIdent() string {
+	for {
+		switch s := g.ident(); strings.ToLower(s) {
+		case "ties", "nulls", "rows", "csv", "json", "jsonl", "fixed", "ltsv":
+		default:
+			return s
+		}
+	}
+}
+
 func (g *c18Gen) fieldRef() string {
+	if g.nofield {
+		return g.variable()
+	}
 	switch g.r.Intn(8) {
 	case 0:
 		return g.ident() + "." + g.ident()
@@ -135,9 +159,9 @@ func (g *c18Gen) function(d int) string {
 		return g.pick("REPLACE", "replace") + "(" + g.value(d-1) + ", 'a', 'b')"
 	case 4:
 		if g.safe {
-			return "NOW() IS NOT NULL"
+			return "(NOW() IS NOT NULL)"
 		}
-		return g.pick("JSON_OBJECT()", "JSON_OBJECT(a, b AS c)", "json_object(t.*)", "JSON_OBJECT(*)", "userfn()", "userfn("+g.args(d, 1, 2)+")")
+		return g.pick("JSON_OBJECT()", "JSON_OBJECT(a, b AS c)", "json_object(t.*)", "JSON_OBJECT(*)", "userfn()", "userfn("+g.args(d, 1, 2)+")", "`user fn`(1)", "`userfn`(1, 2)", "`sum`(1)")
 	default:
 		f := c18SafeFuncs[g.r.Intn(len(c18SafeFuncs))]
 		if g.p(3) {
@@ -354,7 +378,11 @@ func (g *c18Gen) value(d int) string {
 	case 2:
 		return g.pick("NOT ", "not ") + g.value(d-1)
 	case 3:
-		return "!" + g.atom(d-1)
+		if a := g.atom(d - 1); strings.HasPrefix(a, ":") {
+			return "! " + a
+		} else {
+			return "!" + a
+		}
 	case 4, 5, 6:
 		return g.comp(d)
 	default:
@@ -368,11 +396,11 @@ func (g *c18Gen) tableObject(d int) string {
 	case 0:
 		return g.pick("`data.csv`", "`dir/t.tsv`", "`a b.json`")
 	case 1:
-		return g.pick("CSV", "csv", "TSV", "LTSV", "JSONL", "FIXED", "JSON") + "(" + g.pick("',', ", "'[1,2]', ", "", "") + g.pick("`t.txt`", "t", "stdin", "STDIN") + g.pick("", ", 'utf8'", ", 'utf8', true") + ")"
+		return g.pick("CSV", "csv", "LTSV", "JSONL", "FIXED", "JSON", "ltsv") + "(" + g.pick("',', ", "'[1,2]', ", "", "") + g.pick("`t.txt`", "t", "stdin", "STDIN") + g.pick("", ", 'utf8'", ", 'utf8', true") + ")"
 	case 2:
 		return g.pick("JSON_TABLE", "CSV_INLINE", "JSON_INLINE", "json_table") + "('{}', " + g.pick("'{\"a\":1}'", "`j.json`", "jdata") + g.pick("", ", 'utf8'") + ")"
 	case 3:
-		return g.pick("FILE", "INLINE", "URL", "DATA", "file") + g.pick("::", " ::", "::") + "(" + g.pick("'./t.csv'", "@a", "'a,b\\n1,2'") + ")"
+		return g.pick("FILE", "INLINE", "URL", "DATA", "file") + g.pick("::", ":: ", "::\n") + "(" + g.pick("'./t.csv'", "@a", "'a,b\\n1,2'") + ")"
 	case 4:
 		return g.pick("https://example.com/data.csv", "file:./t.csv", "file:///tmp/t.csv", "http://h/p?q=1&r=2")
 	case 5:
@@ -391,7 +419,7 @@ func (g *c18Gen) table(d int) string {
 	}
 	t := g.tableObject(d)
 	if strings.Contains(t, ":") && !strings.Contains(t, "::") { // a URL ends at white space
-		return t + g.pick("", " u", " AS u")
+		return t + g.pick(" u", " AS u")
 	}
 	return t + g.pick("", "", " "+g.pick("t1", "t2", "al"), " AS "+g.pick("t1", "t2", "al"))
 }
@@ -525,11 +553,11 @@ func (g *c18Gen) selectQuery(d int) string {
 func (g *c18Gen) updatable() string {
 	switch g.r.Intn(6) {
 	case 0:
-		return g.pick("CSV", "TSV", "JSON", "LTSV") + "(" + g.pick("", "',', ") + g.pick("`t.txt`", "t") + ")"
+		return g.pick("CSV", "JSON", "LTSV") + "(" + g.pick("", "',', ") + g.pick("`t.txt`", "t") + ")"
 	case 1:
 		return g.pick("FILE", "INLINE") + "::('t.csv')"
 	default:
-		return g.ident()
+		return g.plainIdent()
 	}
 }
 
@@ -615,13 +643,13 @@ func (g *c18Gen) stmt(d int, loop, fn bool) string {
 	case 2:
 		return "DISPOSE " + g.variable()
 	case 3:
-		return g.pick("SET @%ENV = ", "SET @%`my var` TO ", "SET @%E TO ") + g.pick(g.value(d), g.ident())
+		return g.pick("SET @%ENV = ", "SET @%`my var` TO ", "SET @%E TO ") + g.pick(g.sub(d), g.ident())
 	case 4:
 		return "UNSET @%ENV"
 	case 5:
 		return "DECLARE " + g.ident() + " CURSOR FOR " + g.pick(g.selectQuery(d), "stmt")
 	case 6:
-		return "OPEN " + g.ident() + g.pick("", " USING "+g.value(d), " USING "+g.value(d)+" AS p, 2")
+		return "OPEN " + g.ident() + g.pick("", " USING "+g.sub(d), " USING "+g.sub(d)+" AS p, 2")
 	case 7:
 		return g.pick("CLOSE ", "DISPOSE CURSOR ") + g.ident()
 	case 8:
@@ -631,51 +659,58 @@ func (g *c18Gen) stmt(d int, loop, fn bool) string {
 	case 10:
 		return "DISPOSE VIEW " + g.pick(g.ident(), "STDIN")
 	case 11:
-		return g.pick("PREPARE st FROM 'SELECT ?'", "EXECUTE st", "EXECUTE st USING 1, "+g.value(d)+" AS n", "DISPOSE PREPARE st", "PREPARE st FROM "+g.str())
+		return g.pick("PREPARE st FROM 'SELECT ?'", "EXECUTE st", "EXECUTE st USING 1, "+g.sub(d)+" AS n", "DISPOSE PREPARE st", "PREPARE st FROM "+g.str())
 	case 12:
 		if fn {
-			return g.pick("RETURN", "RETURN "+g.value(d))
+			return g.pick("RETURN", "RETURN "+g.sub(d))
 		}
 		return "DECLARE " + g.ident() + " FUNCTION (" + g.pick("", "@p1", "@p1, @p2", "@p1, @p2 DEFAULT 1", "@p1 DEFAULT "+g.prim()) + ") AS BEGIN " + g.block(d, false, true) + "END"
 	case 13:
 		if fn {
-			return g.pick("RETURN", "RETURN "+g.value(d))
+			return g.pick("RETURN", "RETURN "+g.sub(d))
 		}
 		return "DECLARE " + g.ident() + " AGGREGATE (cur" + g.pick("", ", @p1", ", @p1 DEFAULT 0") + ") AS BEGIN " + g.block(d, false, true) + "END"
 	case 14:
 		return "DISPOSE FUNCTION " + g.ident()
 	case 15:
-		return "IF " + g.value(d) + " THEN " + g.block(d, loop, fn) + g.pick("", "ELSEIF "+g.value(1)+" THEN "+g.block(d, loop, fn)) + g.pick("", "ELSE "+g.block(d, loop, fn)) + "END IF"
+		return "IF " + g.sub(d) + " THEN " + g.block(d, loop, fn) + g.pick("", "ELSEIF "+g.sub(1)+" THEN "+g.block(d, loop, fn)) + g.pick("", "ELSE "+g.block(d, loop, fn)) + "END IF"
 	case 16:
-		return "CASE " + g.pick("", g.arith(1)+" ") + "WHEN " + g.value(1) + " THEN " + g.block(d, loop, fn) + g.pick("", "WHEN "+g.value(1)+" THEN "+g.block(d, loop, fn)) + g.pick("", "ELSE "+g.block(d, loop, fn)) + "END CASE"
+		return "CASE " + g.pick("", g.arith(1)+" ") + "WHEN " + g.sub(1) + " THEN " + g.block(d, loop, fn) + g.pick("", "WHEN "+g.sub(1)+" THEN "+g.block(d, loop, fn)) + g.pick("", "ELSE "+g.block(d, loop, fn)) + "END CASE"
 	case 17:
-		return "WHILE " + g.value(d) + " DO " + g.block(d, true, fn) + "END WHILE"
+		return "WHILE (" + g.sub(d) + ") DO " + g.block(d, true, fn) + "END WHILE"
 	case 18:
 		return "WHILE " + g.pick("", "VAR ", "DECLARE ") + g.pick("@a", "@a, @b") + " IN " + g.ident() + " DO " + g.block(d, true, fn) + "END WHILE"
 	case 19:
 		if loop {
 			return g.pick("CONTINUE", "BREAK")
 		}
+		if fn {
+			return "RETURN"
+		}
 		return g.pick("EXIT", "EXIT 1")
 	case 20:
-		return g.pick("SET @@DELIMITER = ", "SET @@delimiter TO ", "SET @@WAIT_TIMEOUT TO ") + g.pick("','", "csv", "15", g.value(1))
+		return g.pick("SET @@DELIMITER = ", "SET @@delimiter TO ", "SET @@WAIT_TIMEOUT TO ") + g.pick("','", "csv", "15", g.sub(1))
 	case 21:
 		return g.pick("ADD '%Y' TO @@DATETIME_FORMAT", "REMOVE '%Y' FROM @@DATETIME_FORMAT", "REMOVE 1 FROM @@datetime_format", "SHOW @@DELIMITER")
 	case 22:
-		return g.pick("ECHO ", "PRINT ", "print ") + g.value(d)
+		return g.pick("ECHO ", "PRINT ", "print ") + g.sub(d)
 	case 23:
-		return "PRINTF " + g.str() + g.pick("", ", "+g.value(1), " USING "+g.value(1)+", "+g.value(1))
+		return "PRINTF " + g.str() + g.pick("", ", "+g.sub(1), " USING "+g.sub(1)+", "+g.sub(1))
 	case 24:
-		return g.pick("SOURCE `f.sql`", "SOURCE 'f.sql'", "SOURCE f", "EXECUTE 'SELECT 1'", "EXECUTE 'SELECT %s' USING 1", "CHDIR `dir`", "CHDIR '/tmp'", "PWD", "RELOAD CONFIG", "SYNTAX", "SYNTAX 'select', 'from'", "SYNTAX select")
+		return g.pick("SOURCE `f.sql`", "SOURCE 'f.sql'", "SOURCE f", "EXECUTE 'SELECT 1'", "EXECUTE 'SELECT %s' USING 1", "CHDIR `dir`", "CHDIR '/tmp'", "PWD", "RELOAD CONFIG", "SYNTAX", "SYNTAX 'select', 'from'", "SYNTAX sel")
 	case 25:
 		return g.pick("SHOW TABLES", "SHOW FIELDS FROM "+g.updatable(), "SHOW cursors", "SHOW ENV")
 	case 26:
 		return "TRIGGER ERROR" + g.pick("", " 'msg'", " 300 'msg'", " "+g.str())
 	case 27:
-		return g.value(d) // an expression statement
+		e := g.sub(d) // an expression statement
+		if u := strings.ToUpper(e); strings.HasPrefix(u, "CASE") || strings.HasPrefix(u, "IF") {
+			return "(" + e + ")" // CASE / IF at the start of a statement are the flow-control statements
+		}
+		return e
 	case 28:
 		if !loop && !fn {
-			return g.pick("$ls -la", "$echo 'a;b' \"c;d\"", "$echo ${@a} ${'x;y'}", "$", "$cmd \\; x")
+			return g.pick("$ls -la", "$echo 'a;b' \"c;d\"", "$echo ${@a} ${'x;y'}", "$")
 		}
 		return "COMMIT"
 	default:
